@@ -470,6 +470,30 @@ func (e *Exec) pureResult(s *State, con *Contract, args []Value, resType types.T
 	var ts []*Term
 	ok := true
 	var flat func(v Value, depth int)
+	var flatT func(v Value, t types.Type, depth int)
+	// flatT: like flat, but knows the Go type: a fixed-size array of scalars is passed element by element, so that
+	// two arrays that agree on their N elements are the same argument (SMT arrays are compared on every index)
+	flatT = func(v Value, t types.Type, depth int) {
+		if t != nil {
+			switch u := t.Underlying().(type) {
+			case *types.Array:
+				if arr, isT := v.(*Term); isT && u.Len() <= 64 && arr.Sort.K == KArr {
+					for i := int64(0); i < u.Len(); i++ {
+						ts = append(ts, e.c.Select(arr, BVConst(uint64(i), 64)))
+					}
+					return
+				}
+			case *types.Struct:
+				if sv, isS := v.(*StructV); isS && len(sv.F) == u.NumFields() && depth <= 3 {
+					for i, f := range sv.F {
+						flatT(f, u.Field(i).Type(), depth+1)
+					}
+					return
+				}
+			}
+		}
+		flat(v, depth)
+	}
 	flat = func(v Value, depth int) {
 		if depth > 3 {
 			ok = false
@@ -494,15 +518,69 @@ func (e *Exec) pureResult(s *State, con *Contract, args []Value, resType types.T
 			}
 			flat(e.load(s, x.Base), depth+1)
 			ts = append(ts, x.Off, x.Len)
+		case *StringV:
+			// a string argument: its bytes, offset and length (two equal strings with different representations
+			// are not identified: fewer equalities, sound)
+			ts = append(ts, x.Arr, x.Off, x.Len)
+		case *IfaceV:
+			if x.ID == nil {
+				ok = false
+				return
+			}
+			// normalised identity: all nil interfaces are the same argument
+			ts = append(ts, e.c.Ite(x.Nil, BVConst(0, 64), x.ID), x.Nil)
+		case *OpaqueV:
+			if x.ID == nil {
+				ok = false
+				return
+			}
+			ts = append(ts, x.ID)
+		case *PtrV:
+			// a pointer argument is known by the identity of the object it points to
+			switch {
+			case x.ID != nil:
+				ts = append(ts, x.ID, x.Nil)
+			case x.Ref != nil && len(x.Ref.Path) == 0:
+				ts = append(ts, BVConst(uint64(x.Ref.Obj.ID), 64), x.Nil)
+			default:
+				ok = false
+			}
 		default:
 			ok = false
 		}
 	}
-	for _, a := range args {
-		flat(a, 0)
+	var sig *types.Signature
+	if con != nil && con.Fn != nil {
+		sig = con.Fn.Signature
 	}
-	if ok && isScalar(resType) {
-		return e.c.UF("pure_"+name, scalarSort(resType), ts...)
+	for i, a := range args {
+		var pt types.Type
+		if sig != nil {
+			j := i
+			if sig.Recv() != nil {
+				j = i - 1
+				if i == 0 {
+					pt = sig.Recv().Type()
+				}
+			}
+			if j >= 0 && j < sig.Params().Len() {
+				pt = sig.Params().At(j).Type()
+			}
+		}
+		flatT(a, pt, 0)
+	}
+	if ok {
+		if isScalar(resType) {
+			return e.c.UF("pure_"+name, scalarSort(resType), ts...)
+		}
+		switch u := resType.Underlying().(type) {
+		case *types.Array:
+			if es := elemSort(u.Elem()); es != nil {
+				return e.c.UF("pure_"+name, SArr(es), ts...)
+			}
+		case *types.Interface:
+			return &IfaceV{Nil: e.c.UF("pure_"+name+".nil", SBool, ts...), ID: e.c.UF("pure_"+name+".id", SBV(64), ts...)}
+		}
 	}
 	return e.freshValS(s, resType, "r."+shortName(name))
 }
